@@ -78,12 +78,23 @@ def do_combine(ctx, src, items, k, step):
     from amr_kitchen.combine import combine
     from amr_kitchen.combine import cli
     a = items[k]
-    partners = [j for j, it in enumerate(items) if j != k and it.mesh_key() == a.mesh_key()
+
+    def compatible(x, y):
+        n = min(x.m.nlev, y.m.nlev)
+        return all(list(x.m.boxes[lv]) == list(y.m.boxes[lv]) for lv in range(n))
+    partners = [j for j, it in enumerate(items) if j != k and compatible(a, it)
                 and any(f not in a.m.fields for f in it.m.fields)]
     if not partners:
         return None
     j = partners[src.draw(f"s{step}.partner", 0, len(partners) - 1)]
     b = items[j]
+    # a level-limited product combined with its deeper ancestor (or the reverse): both readers are
+    # opened with the common level limit (API only: the command line has no such option)
+    limit = None
+    if a.m.nlev != b.m.nlev:
+        limit = min(a.m.nlev, b.m.nlev) - 1
+        a = Item(a.path, a.m.restrict(a.m.fields, limit), a.origin)
+        b = Item(b.path, b.m.restrict(b.m.fields, limit), b.origin)
     v1 = v2 = None
     if src.flag(f"s{step}.sel1", 3):
         idx = src.subset(f"s{step}.sel1.set", len(a.m.fields), min_size=1)
@@ -97,7 +108,8 @@ def do_combine(ctx, src, items, k, step):
         v2 = [cand2[i] for i in idx]
     f2 = [f for f in (b.m.fields if v2 is None else v2) if f not in f1]
     out = os.path.join(ctx.scratch, f"p{step}_combined")
-    use_cli = bool(src.draw(f"s{step}.cli", 0, 1))
+    use_cli = bool(src.draw(f"s{step}.cli", 0, 1)) and limit is None
+    lk = {} if limit is None else {"limit_level": limit}
     s1 = None if v1 is None else " ".join(v1)
     if use_cli:
         argv = ["combine", "-p1", a.path, "-p2", b.path, "-o", out]
@@ -107,9 +119,11 @@ def do_combine(ctx, src, items, k, step):
             argv += ["-v2", " ".join(v2)]
         o = run_tool(ctx, cli.main, cwd=ctx.scratch, argv=argv, label=f"step {step}: combine {argv[1:]}")
     else:
-        o = run_tool(ctx, lambda: combine(PlotfileCooker(a.path), PlotfileCooker(b.path), pltout=out, vars1=s1,
-                                          vars2=None if v2 is None else list(v2)),
-                     cwd=ctx.scratch, label=f"step {step}: combine(#{k}, #{j}, v1={v1}, v2={v2})")
+        o = run_tool(ctx, lambda: combine(PlotfileCooker(a.path, **lk), PlotfileCooker(b.path, **lk), pltout=out,
+                                          vars1=s1, vars2=None if v2 is None else list(v2)),
+                     cwd=ctx.scratch, label=f"step {step}: combine(#{k}, #{j}, v1={v1}, v2={v2}, limit={limit})")
+        if limit is not None:
+            ctx.stats["combine_with_level_limited_reader"] += 1
     expect = a.m.combine(b.m, f1, f2)
     return o, out, expect, true_minmax(expect), f"combine(#{k},#{j},{v1},{v2})", "combine"
 
@@ -180,7 +194,7 @@ def run_case(ctx):
         if not o.ok:
             raise Violation({**sig, "oracle": "op-raises", **o.exc_sig()}, f"chk2plt raised {o.exc!r}; {t.describe()}")
         expect = t.expected()
-        common.check_output_plotfile(ctx, sig, t.out_abs, expect, minmax="true", dx_rtol=1e-12,
+        common.check_output_plotfile(ctx, sig, t.out_abs, expect, minmax="true", dx_rtol=1e-12, bounds_rtol=1e-12,
                                      rtol=[1e-14 if 4 <= k < 4 + t.c.nsp else 0 for k in range(len(expect.fields))] if t.floor else None)
         # continue from what is on disk (values may differ in the last bit from the harness' division)
         from ..reader import PlotOnDisk
@@ -192,6 +206,7 @@ def run_case(ctx):
         m.data = [[np.array(p.data[lv][ob][3]) for ob in range(len(p.cells[lv].indexes))] for lv in range(expect.nlev)]
         m.time = p.time
         m.geo_low, m.geo_high = list(p.geo_low), list(p.geo_high)
+        m.phys = [[list(bx) for bx in p.boxes_phys[lv]] for lv in range(expect.nlev)]
         items.append(Item(t.out_abs, m, "chk2plt"))
     else:
         m1 = world.gen_mesh(src, tag="w", force_3d=True, max_boxes=12)
